@@ -306,10 +306,27 @@ Theorem no_man_in_the_middle (b : party) (h : hello) (a_id : N) :
   In (h_eph h, pa_eph b) a_sessions /\ h_net h = pa_net b /\ h_chain h = pa_chain b.
 Proof.
   intros Hacc Hs (s & Hin & Hc) Hfresh. unfold accepts in Hacc.
-  rewrite !andb_true_iff, !N.eqb_eq in Hacc. destruct Hacc as [[[H1 H2] H3] H4].
+  rewrite !andb_true_iff in Hacc. destruct Hacc as [[[[H1 H2] H3] H4] _]. rewrite N.eqb_eq in H1, H2, H3, H4.
   rewrite H1 in Hc. apply dh_inj in Hc. destruct Hc as [[Ha Hb]|[Ha Hb]].
   - split; [|split; assumption]. rewrite Ha, Hb. destruct s; exact Hin.
   - exfalso. apply (Hfresh s Hin). symmetry. exact Ha.
+Qed.
+
+(* a handshake never ends with the node's own identity as the peer: the reflected proof (the only proof a keyless endpoint can
+   show, since both sides sign the same challenge) is refused; before the repair it was accepted *)
+Theorem accepted_peer_is_another_identity (b : party) (h : hello) : accepts dh b h = true -> h_signer h <> pa_id b.
+Proof.
+  unfold accepts. rewrite !andb_true_iff. intros [_ Hn]. apply negb_true_iff, N.eqb_neq in Hn. exact Hn.
+Qed.
+Theorem reflection_refused (b : party) (e : N) : accepts dh b (reflected dh b e) = false.
+Proof.
+  unfold accepts, reflected. cbn [h_signer h_signed_challenge h_eph h_meta_signer h_net h_chain].
+  rewrite (N.eqb_refl (pa_id b)). cbn [negb]. apply andb_false_r.
+Qed.
+Theorem old_reflection_accepted (b : party) (e : N) : accepts_old dh b (reflected dh b e) = true.
+Proof.
+  unfold accepts_old, reflected. cbn [h_signer h_signed_challenge h_eph h_meta_signer h_net h_chain].
+  rewrite !N.eqb_refl. reflexivity.
 Qed.
 End HandshakeProofs.
 
